@@ -26,4 +26,18 @@ def storeAll (d : Dir) : List (String × List UInt8) → Dir
   | [] => d
   | (u, c) :: rest => storeAll (store d u c) rest
 
+/-- what happens to the directory between two association: the entity stores, something else (an archiver, an
+operator) takes files away -/
+inductive DirOp
+  | store (uid : String) (content : List UInt8)
+  | remove (n : Name)
+
+def applyOp (d : Dir) : DirOp → Dir
+  | .store u c => store d u c
+  | .remove n => d.filter (fun e => !(e.1 == n))
+
+def applyOps (d : Dir) : List DirOp → Dir
+  | [] => d
+  | op :: rest => applyOps (applyOp d op) rest
+
 end Dicom.Store
